@@ -807,56 +807,146 @@ def _cut_const_expr(sym):
     return h
 
 
+def _cut_const_exprs(prefix):
+    """const_expr(&tok, tok): consumes one token; the k-th call on a path yields the unknown constant <prefix>k"""
+    def h(it, ctx, call, args):
+        rest, tok = args[0], args[1]
+        if not (isinstance(rest, _Ref) and isinstance(tok, Obj)):
+            raise AnalysisBroken('const_expr() called with unexpected arguments')
+        rest.place.set(it, tok.fields.get('next'))
+        k = getattr(ctx, 'c08_nconst', 0) + 1
+        ctx.c08_nconst = k
+        return Sym('%s%d' % (prefix, k), 'long')
+    return h
+
+
+_ATTR_A0 = (1, 2, 4, 8, 16, 64)
+_ATTR_N = (-8, 0, 1, 2, 4, 8, 16, 32, 64, 128, 4096)
+
+
 def r083_attributes(P, u, rep):
-    """attribute_list: packed / aligned(N) reach the type that struct_decl/union_decl lay out"""
+    """attribute_list: packed / aligned(N) reach the type that struct_decl/union_decl lay out.
+    attribute_list() is run on concrete attribute lists whose aligned() arguments N1, N2, ... and the alignment A0 the type
+    has on entry are unknowns; every path is summarised (guard, resulting alignment, is_packed) and the summaries are
+    evaluated as a function on a grid of (A0, N1, ...) against gcc's rule: every aligned(N) with a positive N *sets* the
+    alignment (so among several the last one decides, whatever the earlier ones and the entry value were); a
+    non-positive N leaves it alone or is diagnosed; packed sets is_packed; nothing else changes either field."""
     fn = u.fn('attribute_list')
     if fn is None:
         rep.undecided('R08.3', '%s:attribute_list:anchor' % PU, 'attribute_list() vanished')
         return
     where = '%s:%d' % (PU, fn.line)
     tw = TokenWorld(P, u)
+    A = lambda *items: ['__attribute__', '(', '('] + [t for i, it_ in enumerate(items) for t in ([','] if i else []) + it_] + [')', ')']
+    al, pk = ['aligned', '(', '16', ')'], ['packed']
     cases = [
-        ('packed', ['__attribute__', '(', '(', 'packed', ')', ')'], {'is_packed': 1, 'align': 'A0'}),
-        ('aligned', ['__attribute__', '(', '(', 'aligned', '(', '16', ')', ')', ')'], {'is_packed': 0, 'align': 'N'}),
-        ('packed+aligned', ['__attribute__', '(', '(', 'packed', ',', 'aligned', '(', '16', ')', ')', ')'], {'is_packed': 1, 'align': 'N'}),
-        ('aligned+packed-separate', ['__attribute__', '(', '(', 'aligned', '(', '16', ')', ')', ')', '__attribute__', '(', '(', 'packed', ')', ')'], {'is_packed': 1, 'align': 'N'}),
-        ('none', [], {'is_packed': 0, 'align': 'A0'}),
+        ('packed', A(pk)),
+        ('aligned', A(al)),
+        ('packed+aligned', A(pk, al)),
+        ('aligned+packed-separate', A(al) + A(pk)),
+        ('none', []),
+        ('aligned+aligned', A(al, al)),
+        ('aligned+aligned-separate', A(al) + A(al)),
+        ('aligned+packed+aligned-separate', A(al, pk) + A(al)),
     ]
-    for name, seq, want in cases:
+    # diagnostics that return (warnings) are recorded, not looked into: the path that issues one is judged like any other
+    noret = ('error', 'error_at', 'error_tok', 'exit', '_exit', 'abort', '__assert_fail')
+    opaque = sorted(set(c.callee() for c in fn.calls() if c.callee() and c.callee() not in noret
+                        and ' '.join((c.dtype or c.type or '').split()) == 'void'))
+    for name, seq in cases:
         key = '%s:attribute_list:%s' % (PU, name)
+        n_al = seq.count('aligned')
+        want_pk = int('packed' in seq)
+        spelled = ' '.join(seq) or '(no attribute)'
+        k = [0]
+        shown = []
+        for s in seq:
+            if s == '16':
+                k[0] += 1
+                s = 'N%d' % k[0]
+            shown.append(s)
+        shown = ' '.join(shown) or '(no attribute)'
         try:
-            it = Interp(P, u, {'models': tw.models(), 'cut': {'const_expr': _cut_const_expr('N')}})
+            it = Interp(P, u, {'models': tw.models(), 'cut': {'const_expr': _cut_const_exprs('N')}, 'opaque': opaque})
 
             def mk(ctx):
                 t = Obj('Type', lazy=False, label='ty')
                 t.fields.update({'align': Sym('A0', 'int'), 'is_packed': 0})
                 ctx.c08ty = t
                 return [tw.tokens(seq), t]
-            paths = it.explore('attribute_list', mk, max_paths=50)
+            paths = it.explore('attribute_list', mk, max_paths=200)
         except AnalysisBroken as ex:
-            rep.undecided('R08.3', key, 'attribute_list not interpretable on `%s`: %s' % (' '.join(seq), ex), where=where)
+            rep.undecided('R08.3', key, 'attribute_list not interpretable on `%s`: %s' % (spelled, ex), where=where)
             continue
-        if len(paths) != 1:
-            rep.undecided('R08.3', key, '%d paths for a concrete attribute list' % len(paths), where=where)
+        sums, broken = [], None
+        for ctx, out in paths:
+            t = ctx.c08ty
+            p = t.fields.get('is_packed', 0)
+            p = it.settle(p) if isinstance(p, View) else p
+            consumed = out[0] == 'ret' and isinstance(out[1], Obj) and out[1].fields.get('loc') == 'x'
+            try:
+                if not isinstance(p, (int, bool)):
+                    raise Uninterpretable('is_packed is %r' % (p,))
+                s = Summary(ctx, {'align': t.fields.get('align')})
+            except Uninterpretable as ex:
+                broken = 'a path of attribute_list() on `%s` is not a function of the alignments: %s' % (shown, ex)
+                break
+            if not s.syms() <= set(['A0'] + ['N%d' % (i + 1) for i in range(n_al)]):
+                broken = 'a path of attribute_list() on `%s` depends on %s' % (shown, ', '.join(sorted(s.syms())))
+                break
+            sums.append((s, out, int(bool(p)), consumed))
+        if broken:
+            rep.undecided('R08.3', key, broken, where=where)
             continue
-        ctx, out = paths[0]
-        spelled = ' '.join(seq) or '(no attribute)'
-        if out[0] != 'ret':
-            rep.ob('R08.3', key, False, '`struct %s {...}` is rejected by %s()' % (spelled, out[1]), where=where)
+        bad, judged = [], 0
+        for vals in itertools.product(_ATTR_A0, *([_ATTR_N] * n_al)):
+            e = {'A0': vals[0]}
+            want = vals[0]
+            for i, n in enumerate(vals[1:]):
+                e['N%d' % (i + 1)] = n
+                if n > 0:
+                    want = n
+            positive = all(n > 0 for n in vals[1:])
+            hits = [x for x in sums if x[0].applies(e)]
+            txt = ', '.join('%s=%d' % (k_, e[k_]) for k_ in sorted(e, key=lambda z: (z != 'A0', z)))
+            if not hits:
+                if positive:
+                    bad.append((None, 'no path of attribute_list() covers %s' % txt))
+                continue        # a non-positive request whose path ends in something not modelled: not judged
+            for s, out, p, consumed in hits:
+                if out[0] != 'ret':
+                    if positive:
+                        bad.append(('rejected', 'is rejected by %s() (%s)' % (out[1], txt)))
+                    continue    # a non-positive alignment may be diagnosed
+                judged += 1
+                got = s.out['align'](e)
+                if got != want:
+                    if n_al == 0:
+                        why = 'no aligned attribute is present, it must be left alone'
+                    elif not positive and want == vals[0]:
+                        why = 'a non-positive request is ignored'
+                    elif n_al > 1:
+                        why = 'every positive aligned(N) sets the alignment, so the last one decides (gcc), whether it is smaller or larger than what the type had'
+                    else:
+                        why = 'aligned(N) sets the alignment to N, whether that is smaller or larger than what the type had'
+                    bad.append(('align', 'the type\'s alignment becomes %d, must be %d with %s (%s)' % (got, want, txt, why)))
+                if p != want_pk:
+                    bad.append(('packed', 'is_packed is %d, must be %d' % (p, want_pk)))
+                if not consumed:
+                    bad.append(('consumed', 'the attribute list is not consumed completely'))
+        if [b for b in bad if b[0] is None] and not [b for b in bad if b[0]]:
+            rep.undecided('R08.3', key, '`struct %s {...}`: %s' % (shown, bad[0][1]), where=where)
             continue
-        t = ctx.c08ty
-        pk = t.fields.get('is_packed', 0)
-        pk = it.settle(pk) if isinstance(pk, View) else pk
-        al = t.fields.get('align')
-        bad = []
-        if int(bool(pk)) != want['is_packed'] if isinstance(pk, (int, bool)) else True:
-            bad.append('is_packed is %r, must be %d' % (pk, want['is_packed']))
-        if not _is_just(al, want['align']):
-            bad.append('the type\'s alignment is %r, must be %s' % (al, 'the aligned() argument' if want['align'] == 'N' else 'left alone'))
-        nxt = out[1]
-        if not (isinstance(nxt, Obj) and nxt.fields.get('loc') == 'x'):
-            bad.append('the attribute list is not consumed completely')
-        rep.ob('R08.3', key, not bad, '`struct %s {...}`: %s (the layout loops read these two fields)' % (spelled, '; '.join(bad)), where=where)
+        if not judged and not bad:
+            rep.undecided('R08.3', key, '`struct %s {...}`: no returning path of attribute_list() to judge' % shown, where=where)
+            continue
+        msgs, seen = [], set()
+        for kind, m in bad:
+            if kind and kind not in seen:
+                seen.add(kind)
+                msgs.append(m)
+        rep.ob('R08.3', key, not msgs, '`struct %s {...}`: %s (the layout loops read these two fields)' % (shown, '; '.join(msgs)), where=where,
+               facts={'grid_points_judged': judged, 'paths': len(paths)})
 
 
 # =====================================================================================
@@ -906,7 +996,7 @@ def r083_definition(P, u, rep):
     elsewhere = sorted(f for f, d in u.functions.items() if f not in inlined and d.calls('attribute_list'))
     results = {}       # (tagcase, what) -> [ok, msg]
     seen = set()
-    for scenario in ('none', 'leading', 'trailing'):
+    for scenario in ('none', 'leading', 'trailing', 'both'):
         def cut_attr(it, ctx, call, args, scenario=scenario):
             ty = args[1] if len(args) > 1 else None
             ty = it.settle(ty) if isinstance(ty, View) else ty
@@ -915,7 +1005,10 @@ def r083_definition(P, u, rep):
                 ctx.c08_trailing = True
             if not isinstance(ty, Obj):
                 raise AnalysisBroken('attribute_list() is applied to %r, not to a type object' % (ty,))
-            if scenario != 'none' and (scenario == 'trailing') == after:
+            if scenario == 'both' and not after:
+                # an aligned attribute before the tag; the list after the closing brace (below) is applied later and decides (gcc)
+                ty.fields['align'] = Sym('AL0', 'int')
+            elif scenario != 'none' and (scenario != 'leading') == after:
                 ty.fields['is_packed'] = 1
                 ty.fields['align'] = Sym('AL', 'int')
             return Obj('Token', lazy=True, label='after-attributes')
@@ -987,17 +1080,18 @@ def r083_definition(P, u, rep):
                     'struct_decl/union_decl expect a complete empty type (size 0, alignment 1, not packed)' % (tagtxt, sz, al, pk))
             else:
                 ok = isinstance(pk, (int, bool)) and bool(pk) and _is_just(al, 'AL')
-                if not ok and scenario == 'trailing' and not getattr(ctx, 'c08_trailing', False) and elsewhere:
+                if not ok and scenario != 'leading' and not getattr(ctx, 'c08_trailing', False) and elsewhere:
                     put(scenario + '-attributes', None, 'struct_union_decl() does not read the attributes after the closing brace on this path, but %s() call(s) attribute_list(): shape not recognised' % '/'.join(elsewhere))
                     continue
-                pos = 'before the tag' if scenario == 'leading' else 'after the closing brace'
+                pos = {'leading': 'before the tag', 'trailing': 'after the closing brace',
+                       'both': 'after the closing brace, following an __attribute__((aligned(M))) before the tag,'}[scenario]
                 put(scenario + '-attributes', ok, '__attribute__((packed, aligned(N))) written %s of %s does not reach the type that is laid out '
                     '(returned type: is_packed %r, alignment %r): its members are placed and its size is computed as if the attribute were absent' % (pos, tagtxt, pk, al))
     for case in ('untagged', 'new-tag', 'known-tag'):
         if case not in seen:
             rep.undecided('R08.3', '%s/%s' % (base, case), 'no path of struct_union_decl() reads a member list for this kind of tag', where=where)
             continue
-        for what in ('members', 'complete', 'leading-attributes', 'trailing-attributes'):
+        for what in ('members', 'complete', 'leading-attributes', 'trailing-attributes', 'both-attributes'):
             key = '%s/%s/%s' % (base, case, what)
             r = results.get((case, what))
             if r is None:
